@@ -113,6 +113,25 @@ def classify_readback(site, events, got_text):
     return "mismatch:" + site["op"]
 
 
+def strict_equal(a, b):
+    """== plus identical types for str / bytes leaves, recursively through the builtin containers"""
+    if isinstance(a, (str, bytes)) or isinstance(b, (str, bytes)):
+        return type(a) is type(b) and a == b
+    if isinstance(a, (list, tuple)) and isinstance(b, (list, tuple)):
+        return type(a) is type(b) and len(a) == len(b) and all(strict_equal(x, y) for x, y in zip(a, b))
+    if isinstance(a, dict) and isinstance(b, dict):
+        if len(a) != len(b):
+            return False
+        for (k1, v1), (k2, v2) in zip(sorted(a.items(), key=lambda kv: repr(kv[0])), sorted(b.items(), key=lambda kv: repr(kv[0]))):
+            if not strict_equal(k1, k2) or not strict_equal(v1, v2):
+                return False
+        return True
+    try:
+        return bool(a == b)
+    except Exception:
+        return False
+
+
 def execute(case, ctx):
     prog, driver, fmt = case["program"], case["driver"], case["fmt"]
     files, orders = P.render(prog, drivers.simlib_text())
@@ -231,6 +250,39 @@ def execute(case, ctx):
                 if want[i] is True and g is not True:
                     fail(sid, f"comparison {e['eid']}[{i}] answered {g!r} in the read-back")
     ctx.count("readbacks")
+    # ---- optional (C12): the literal found on disk evaluates to exactly the observed value, type included
+    if case.get("strict"):
+        for (fn, sid), call in smap.items():
+            site = sidx[sid][1]
+            if site["op"] != "eq" or sid in exempt or sid not in reached or call.arg_text is None:
+                continue
+            v = events_by_site[sid][0]["vals"][0]
+            try:
+                got = P.eval_arg(call.arg_text)
+            except Exception as ex:
+                fail(sid, f"argument does not evaluate: {type(ex).__name__}: {ex}")
+                continue
+            ctx.count("literals_checked")
+            if not strict_equal(got, V.pyval(v)):
+                fail(sid, f"the written literal evaluates to {got!r:.200}, not to the observed value")
+    # ---- optional (C12/C08): a following session with `update` approved keeps the value
+    if case.get("second"):
+        new2, res2 = sim.run_session(ctx, driver, new, {"flags": case["second"], "fmt": fmt})
+        if sim.session_completed(driver, res2):
+            try:
+                smap2 = sim.site_map(sim.to_text({k: v for k, v in new2.items() if k.endswith(".py")}), orders)
+            except SyntaxError as ex:
+                out["violations"].append({"clause": "parse", "sig": "unparsable-file-after-second-session", "detail": str(ex)})
+                return out
+            for (fn, sid), call in smap2.items():
+                site = sidx[sid][1]
+                if site["op"] != "eq" or sid in exempt or sid not in reached or call.arg_text is None:
+                    continue
+                try:
+                    if not strict_equal(P.eval_arg(call.arg_text), V.pyval(events_by_site[sid][0]["vals"][0])):
+                        fail(sid, f"after a second session ({case['second']}) the literal evaluates to another value: {call.arg_text!r:.200}")
+                except Exception as ex:
+                    fail(sid, f"after a second session the argument does not evaluate: {ex}")
     if smap:
         out["sample"] = {"driver": driver, "fmt": fmt_tag(fmt), "file": next(iter(text_new.values()))[:600]}
     return out
